@@ -612,6 +612,8 @@ def register(M):
 
     # ------------------------------------------------------------ Option / Result / bool combinators
     def tag_is(o, i):
+        if not isinstance(o, EnumV):
+            raise Unsupported('Option / Result method on a value that is not defined here: %r' % (o,))
         return S.Eq(o.tag, b64(i))
 
     def payload(o, i):
